@@ -1955,8 +1955,14 @@ class FileBuilder:
                 FileBuilder._try_to_remove_file(filename)
         FileBuilder._remove_empty_dirs(list(dirs_to_remove))
 
-        FileBuilder._create_dirs(self._old_cache.created_dirs())
+        # Restore the backups before recreating the previous build's
+        # directories, so that we never create a directory where a backed up
+        # file belongs. (If a directory from the previous build was externally
+        # replaced with a regular file and we overwrote that file, then
+        # creating the directory first would make restore_all() skip the
+        # file.) restore_all() creates any parent directories it needs.
         self._backups.restore_all()
+        FileBuilder._create_dirs(self._old_cache.created_dirs())
         logger.info('Rolled back build operation')
 
     def _build(self, cache_filename, func, args, kwargs):
